@@ -171,9 +171,24 @@ def prop(spec, rec):
     ids = list(net.station_ids)
     n = len(ids)
     linear = spec["linear"]
-    feas = lambda S: bool(net.is_feasible(np.asarray(S, dtype=float).reshape(-1, 1), linear=linear))  # noqa: E731
     members = topo["transformers"][spec["group"]]
     idx = [ids.index(s) for s in members if s in ids]
+    multi = bool(spec.get("multi"))
+
+    def companion(S):
+        """The same total behind the transformer spread evenly over its stations (the most
+        benign allocation of that total), other stations unchanged."""
+        U = np.array(S, dtype=float)
+        U[idx] = min(32.0, float(np.sum(U[idx])) / len(idx))
+        return U
+
+    def feas(S):
+        S = np.asarray(S, dtype=float)
+        if multi:
+            # a two-period schedule: the even allocation first, then S (equal totals)
+            return bool(net.is_feasible(np.column_stack([companion(S), S]), linear=linear))
+        return bool(net.is_feasible(S.reshape(-1, 1), linear=linear))
+
     w = np.zeros(n)
     for k, i in enumerate(idx):
         w[i] = spec["weights"][k % len(spec["weights"])]
@@ -186,10 +201,16 @@ def prop(spec, rec):
     if spec.get("json"):
         labels.add("loaded_from_json")
     labels.add("entry_" + spec.get("entry", "keyword"))
+    if spec.get("entry", "").startswith("alias"):
+        labels.add("deprecated_alias_entry")
     if spec.get("stochastic_type"):
         labels.add("stochastic_network_type")
     if spec.get("evse_voltage", 208) != 208:
         labels.add("non_default_evse_voltage")
+    if multi:
+        labels.add("two_period_schedule_equal_totals")
+    if any(not math.isfinite(c) or c > 1e5 for c in spec["caps"].values()):
+        labels.add("huge_transformer_capacity")
     if spec.get("prior_lenient"):
         # an earlier what-if question with generous tolerances (same shape) on the same object
         for lin in (False, True):
@@ -206,7 +227,13 @@ def prop(spec, rec):
             else:
                 hi = mid
         S = S * lo
-    worst = max(worst, judge(spec, topo, ids, S, "scaled schedule"))
+    def judge_all(X, what):
+        w = judge(spec, topo, ids, X, what)
+        if multi:
+            w = max(w, judge(spec, topo, ids, companion(X), what + " (first period: the same total spread evenly)"))
+        return w
+
+    worst = max(worst, judge_all(S, "scaled schedule"))
     # coordinate ascent along the generated order
     order = [idx[k % len(idx)] for k in spec["order"]] + idx
     for i in order:
@@ -225,7 +252,7 @@ def prop(spec, rec):
                 b = m
         S[i] = a
     if feas(S):
-        worst = max(worst, judge(spec, topo, ids, S, "frontier schedule"))
+        worst = max(worst, judge_all(S, "frontier schedule"))
     # real EVSE types: only allowable levels can actually be applied
     if not spec["basic"]:
         R = S.copy()
@@ -236,7 +263,7 @@ def prop(spec, rec):
                 above = [x for x in lv if x >= R[i] - 1e-9]
                 R[i] = (max(below) if below else 0.0) if spec["snap_down"] or not above else min(above)
         if feas(R):
-            worst = max(worst, judge(spec, topo, ids, R, "frontier schedule snapped to allowable levels"))
+            worst = max(worst, judge_all(R, "frontier schedule snapped to allowable levels"))
             labels.add("snapped_accepted")
     hypothesis.target(min(worst, 1.5), label="power_over_capacity")
     rec.maximum("max_power_over_capacity_" + spec["site"] + "_" + spec["group"], worst)
@@ -256,6 +283,13 @@ def cases(draw):
     # capacities low enough that the transformer binds before the 32 A EVSE maxima do
     full = 120.0 * SQ3 * 32.0 * m / 1000.0
     caps = {g: round(draw(st.floats(10.0, min(400.0, 0.85 * 120.0 * SQ3 * 32.0 * len(topo["transformers"][g]) / 1000.0))), 2) for g in topo["transformers"]}
+    if site != "office001" and draw(st.integers(0, 5)) == 0:
+        # an oversized (or unlimited) transformer: pods, sub-panels and the other transformer
+        # must still be enforced
+        big = draw(st.sampled_from(sorted(caps)))
+        caps[big] = draw(st.sampled_from([1e6, 1e9, float("inf")]))
+        if len(caps) > 1:
+            group = [g for g in sorted(caps) if g != big][0]
     kind = draw(st.sampled_from(["uniform", "sparse", "phase_heavy", "balanced", "balanced"]))
     pairs = [topo["pairs"][s] for s in topo["transformers"][group]]
     if kind == "uniform":
@@ -287,10 +321,11 @@ def cases(draw):
         "linear": draw(st.integers(0, 3)) == 0,
         "snap_down": draw(st.booleans()),
         "json": draw(st.integers(0, 3)) == 0,
-        "entry": draw(st.sampled_from(["keyword", "keyword", "positional", "alias", "alias_positional"] if site == "caltech" else ["keyword", "keyword", "positional"])),
+        "entry": draw(st.sampled_from(["keyword", "positional", "alias", "alias", "alias_positional"] if site == "caltech" else ["keyword", "keyword", "positional"])),
         "stochastic_type": draw(st.integers(0, 4)) == 0,
         "evse_voltage": draw(st.sampled_from([208, 208, 208, 240, 120])),
         "prior_lenient": draw(st.integers(0, 3)) == 0,
+        "multi": draw(st.integers(0, 2)) == 0,
     }
 
 
@@ -339,7 +374,7 @@ def prop_structure(spec, rec):
 
 def subchecks(tier):
     return [
-        Given("frontier", cases(), prop, quick=320, thorough=30000, floors={"near_rating": 0.2, "at_rating": 0.1, "linear": 0.1, "real_evse": 0.12, "lenient_query_first": 0.1, "entry_alias": 0.03}, jobs_quick=8),
+        Given("frontier", cases(), prop, quick=320, thorough=30000, floors={"near_rating": 0.2, "at_rating": 0.1, "linear": 0.1, "real_evse": 0.12, "lenient_query_first": 0.1, "deprecated_alias_entry": 0.02, "two_period_schedule_equal_totals": 0.1, "huge_transformer_capacity": 0.03}, jobs_quick=8),
         Exhaustive("structure", structure_items, prop_structure, jobs_quick=2),
     ]
 
